@@ -19,20 +19,12 @@ def configs(tier):
     if tier == 'quick': return q
     t = q + [
         ('free names width2 depth2', dict(family='free', fam_kw=dict(width=2, depth=2, pool=2))),
-        ('extend: root child+attribute+text 3docs', dict(family='root_level', fam_kw=dict(docs=3, slots=1, attrs=1, text=True, pool=1))),
         ('extend: root children 3docs x 2slots with element forms', dict(family='root_level', fam_kw=dict(docs=3, slots=2, attrs=0, text=False, pool=3))),
-        ('nested 2occ x 2slots x 2grandchildren', dict(family='one_level', fam_kw=dict(occ=2, slots=2, gslots=2, attrs=0, text=False, leaf_form=False, p_form=False, pool=2))),
-        ('free names width3 depth2', dict(family='free', fam_kw=dict(width=3, depth=2, pool=2))),
         ('children 4occ x 2slots', dict(family='one_level', fam_kw=dict(occ=4, slots=2, attrs=0, text=False, leaf_form=False, pool=3))),
         ('children 3occ x 3slots', dict(family='one_level', fam_kw=dict(occ=3, slots=3, attrs=0, text=False, leaf_form=False, pool=3))),
-        ('children+forms 3occ x 2slots', dict(family='one_level', fam_kw=dict(occ=3, slots=2, attrs=0, text=False, leaf_form=True, pool=3))),
         ('attributes 4occ x 3attrs', dict(family='one_level', fam_kw=dict(occ=4, slots=0, attrs=3, text=False, pool=3))),
         ('everything 2occ x 2slots', dict(family='one_level', fam_kw=dict(occ=2, slots=2, attrs=1, text=True, pool=2))),
-        ('extend: root children 4docs x 2slots', dict(family='root_level', fam_kw=dict(docs=4, slots=2, attrs=0, text=False, pool=3))),
-        ('extend: root all 3docs', dict(family='root_level', fam_kw=dict(docs=3, slots=2, attrs=1, text=True, pool=2))),
-        ('extend: 3docs x 2occ x 2slots', dict(family='one_level', fam_kw=dict(docs=3, occ=2, slots=2, attrs=0, text=False, leaf_form=False, p_form=False, pool=2))),
-        ('nested 3occ x 2slots x 2grandchildren', dict(family='one_level', fam_kw=dict(occ=3, slots=2, gslots=2, attrs=0, text=False, leaf_form=False, p_form=False, pool=2))),
-        ('free names width3 depth3', dict(family='free', fam_kw=dict(width=3, depth=3, pool=2))),
+        ('extend: root children 4docs x 2slots', dict(family='root_level', fam_kw=dict(docs=4, slots=2, attrs=0, text=False, pool=2, leaf_form=False))),
         ('rendered schema 3occ x 2slots (serde_xml_rs)', dict(family='one_level', fam_kw=dict(occ=3, slots=2, attrs=1, text=True, leaf_form=False, pool=2), render='serde_xml_rs')),
     ]
     return t
@@ -46,9 +38,7 @@ def steps(tier):
     if tier == 'quick': return q
     return q + [('inductive step: 2 old children, 2 slots, 1 new name, text, attribute', dict(k=2, j=0, slots=2, new=1)),
                 ('inductive step: 3 old children, 2 slots, 1 new name', dict(k=3, j=0, slots=2, new=1, attr_slots=0, with_text=False)),
-                ('inductive step: 2 old children, 3 slots, 2 new names', dict(k=2, j=0, slots=3, new=2)),
-                ('inductive step: 2 old children + 1 old attribute', dict(k=2, j=1, slots=2, new=1)),
-                ('inductive step one level down: 2 old children with a grandchild', dict(k=2, j=0, slots=2, new=0, gk=1))]
+                ('inductive step one level down: 2 old children with a grandchild', dict(k=2, j=0, slots=2, new=0, gk=1, attr_slots=0, with_text=False))]
 
 def main():
     c = Check('C03')
@@ -64,7 +54,7 @@ def main():
             c.run(label, 'rsym.hb', 'ExactInference', kw,
                   required_witnesses=() if 'attributes' in label or 'text' in label else ('some child Optional',))
         for label, kw in steps(c.tier):
-            c.run(label, 'rsym.hb', 'InductiveStep', kw, time_cap=250 if c.tier == 'quick' else 3400, path_cap=400000 if c.tier == 'quick' else 6000000)
+            c.run(label, 'rsym.hb', 'InductiveStep', kw, time_cap=250 if c.tier == 'quick' else 900, path_cap=400000 if c.tier == 'quick' else 4000000)
     c.finish(bounds={'skeletons': [l for l, _ in configs(c.tier)], 'inductive_steps': [l for l, _ in steps(c.tier)], 'depth': '<= 3 element levels below the root (4 in the thorough free-name family)', 'name_pool': '<= 4 distinct names per position'},
              outside=['documents wider/deeper than the listed skeletons', 'names that the code would inspect character by character (none on the unchanged tree)', 'quick_xml tokenising'],
              trusted=['rsym interpreter + library models (re-validated by the conformance gate on every run)', 'z3', 'tools/replay (native replay)'],
